@@ -134,6 +134,10 @@ type endpoint struct {
 	// endpoint is in this state. hardError is protected by mu.
 	hardError *tcpip.Error
 
+	// rcvdRst is set by the protocol goroutine when an acceptable RST
+	// arrived from the peer; such a connection is torn down silently.
+	rcvdRst bool
+
 	// workerRunning specifies if a worker goroutine is running.
 	workerRunning bool
 
